@@ -133,22 +133,23 @@ theorem no_dispatch_into_completed_reachable (sp : Spec) (evs evs' : List Event)
 /-! ### the `pause` engine command and the backlog -/
 
 /-- `pause_command_saves_rest`: a command list `pre ++ [pause] ++ rest` (pre: task commands) processed in a
-    RUNNING workflow: the tasks of `pre` are created, the workflow becomes PAUSED, and the REST of the list
-    (without its noops) is appended to the backlog - nothing of it is created. -/
+    RUNNING workflow: the tasks of `pre` are created (in the order `_rearrange_commands` sorts them), the
+    workflow becomes PAUSED, and the REST of the list (without its noops) is appended to the backlog -
+    nothing of it is created. -/
 theorem pause_command_saves_rest (sp : Spec) (w : World) (pre : List Cmd) (p : Cmd) (rest : List Cmd)
     (hw : w.wf = .RUNNING) (hpre : ∀ c ∈ pre, cmdKind c.target = .task) (hp : cmdKind p.target = .pause) :
     processX sp false w (pre ++ p :: rest) =
-      { pre.foldl (dispatchOneX sp false) w with
+      { (pySort (cmdLT fun c => !false && c.existing.isNone && (isJoin sp c.target).isSome) pre).foldl
+          (dispatchOneX sp false) w with
           wf := .PAUSED,
           backlog := w.backlog ++ rest.filter (fun c => cmdKind c.target != .noop) } := by
-  unfold processX rearrange
-  have hf : (pre ++ p :: rest).filter (fun c => cmdKind c.target != .noop) =
-      pre ++ p :: rest.filter (fun c => cmdKind c.target != .noop) := by
-    rw [List.filter_append, filter_noop_tasks pre hpre, List.filter_cons]
-    simp [hp]
-  rw [hf, rearrangeAux_tasks_pause pre p _ hpre hp, List.foldl_append, List.foldl_cons]
-  obtain ⟨h1, h2⟩ := foldl_tasks_running sp false pre w hw hpre
-  generalize pre.foldl (dispatchOneX sp false) w = w1 at h1 h2
+  unfold processX
+  rw [rearrange_tasks_pause _ pre p rest hpre hp, List.foldl_append, List.foldl_cons]
+  have hpre' : ∀ c ∈ pySort (cmdLT fun c => !false && c.existing.isNone && (isJoin sp c.target).isSome) pre,
+      cmdKind c.target = .task := fun c hc => hpre c ((pySort_perm _ pre).2 c |>.mp hc)
+  obtain ⟨h1, h2⟩ := foldl_tasks_running sp false _ w hw hpre'
+  generalize (pySort (cmdLT fun c => !false && c.existing.isNone && (isJoin sp c.target).isSome) pre).foldl
+    (dispatchOneX sp false) w = w1 at h1 h2
   have hp1 : dispatchOneX sp false w1 p = { w1 with wf := .PAUSED } := by
     have hc : isCompleted w1.wf = false := by rw [h1]; decide
     have hq : (w1.wf == St.PAUSED) = false := by rw [h1]; decide
@@ -232,28 +233,35 @@ theorem backlog_untouched_while_paused (sp : Spec) (w : World) (ev : Event) (hw 
 
 /-- `backlog_restored_once`: when the backlog is polled in a RUNNING workflow (after `resume`, or at the
     next dispatch) every saved task command is dispatched EXACTLY ONCE - one new execution and one start
-    request per saved command, in the saved order - and the backlog is empty afterwards: nothing is lost,
-    nothing can be dispatched a second time.  (In a completed workflow the polled backlog is dropped:
-    `dispatchX_completed` / `no_dispatch_into_completed`.) -/
-theorem backlog_restored_once (sp : Spec) (bl : List Cmd) :
-    ∀ (w : World), w.wf = .RUNNING → w.backlog = [] → (∀ c ∈ bl, cmdKind c.target = .task) →
-      (processX sp true w bl).backlog = [] ∧ (processX sp true w bl).wf = .RUNNING ∧
-      (processX sp true w bl).tasks.map (·.name) = w.tasks.map (·.name) ++ bl.map (·.target) ∧
-      (processX sp true w bl).tasks.length = w.tasks.length + bl.length ∧
-      (processX sp true w bl).pending.length = w.pending.length + bl.length := by
-  unfold processX rearrange
-  intro w hw hb hbl
-  rw [filter_noop_tasks bl hbl, rearrangeAux_tasks bl hbl]
-  induction bl generalizing w with
+    request per saved command (in the order `_rearrange_commands` gives them) - and the backlog is empty
+    afterwards: nothing is lost, nothing can be dispatched a second time.  (In a completed workflow the
+    polled backlog is dropped: `dispatchX_completed` / `no_dispatch_into_completed`.) -/
+theorem backlog_restored_once (sp : Spec) (bl : List Cmd) (w : World) (hw : w.wf = .RUNNING) (hb : w.backlog = [])
+    (hbl : ∀ c ∈ bl, cmdKind c.target = .task) :
+    (processX sp true w bl).backlog = [] ∧ (processX sp true w bl).wf = .RUNNING ∧
+    (processX sp true w bl).tasks.map (·.name) =
+      w.tasks.map (·.name) ++
+        (pySort (cmdLT fun c => !true && c.existing.isNone && (isJoin sp c.target).isSome) bl).map (·.target) ∧
+    (processX sp true w bl).tasks.length = w.tasks.length + bl.length ∧
+    (processX sp true w bl).pending.length = w.pending.length + bl.length := by
+  unfold processX
+  rw [rearrange_tasks _ bl hbl]
+  obtain ⟨hlen, hmem⟩ := pySort_perm (cmdLT fun c => !true && c.existing.isNone && (isJoin sp c.target).isSome) bl
+  have hbl' : ∀ c ∈ pySort (cmdLT fun c => !true && c.existing.isNone && (isJoin sp c.target).isSome) bl,
+      cmdKind c.target = .task := fun c hc => hbl c ((hmem c).mp hc)
+  rw [← hlen]
+  generalize pySort (cmdLT fun c => !true && c.existing.isNone && (isJoin sp c.target).isSome) bl = cs at hbl'
+  clear hlen hmem hbl
+  induction cs generalizing w with
   | nil => exact ⟨hb, hw, by simp, by simp, by simp⟩
   | cons c cs ih =>
-    have hc := hbl c List.mem_cons_self
+    have hc := hbl' c List.mem_cons_self
     have h1 : isCompleted w.wf = false := by rw [hw]; decide
     have h2 : (w.wf == St.PAUSED) = false := by rw [hw]; decide
     have hstep : dispatchOneX sp true w c = dispatchPlain w c := by
       simp only [dispatchOneX, h1, h2, hc, Bool.false_eq_true, if_false, if_true]
     simp only [List.foldl_cons, hstep]
-    obtain ⟨i1, i2, i3, i4, i5⟩ := ih (dispatchPlain w c) hw hb (fun c' hc' => hbl c' (List.mem_cons_of_mem _ hc'))
+    obtain ⟨i1, i2, i3, i4, i5⟩ := ih (dispatchPlain w c) hw hb (fun c' hc' => hbl' c' (List.mem_cons_of_mem _ hc'))
     refine ⟨i1, i2, ?_, ?_, ?_⟩
     · rw [i3]; simp [dispatchPlain, newRow]
     · rw [i4]; simp [dispatchPlain]; omega
